@@ -52,7 +52,7 @@ type scen struct {
 	credited map[string]int
 }
 
-func build(aged bool) *scen {
+func build(aged bool, wrap ...bool) *scen {
 	s := &scen{aged: aged}
 	w := chain.NewWorld()
 	s.w = w
@@ -73,6 +73,15 @@ func build(aged bool) *scen {
 		e = w.EpochStartNow()
 		w.Must("aged pay2", w.Pay(s.provs[1].Addr.String(), w.Relay(s.cons, s.provs[1].Addr.String(), "mock", 2, 64, int64(e), 0)))
 		w.NextBlock(chain.BlockDt)
+	}
+	if len(wrap) > 0 && wrap[0] {
+		// heights around 256: epoch numbers whose serialized form changes its byte pattern (store keys are built
+		// from utils.Serialize(epoch); ordering of such keys is not numeric order across this boundary)
+		for w.EpochStartNow() < 256 {
+			if p := w.AdvanceToNextEpoch(chain.BlockDt); p != "" {
+				panic(p)
+			}
+		}
 	}
 	s.e0 = w.EpochStartNow()
 	w.MarkFixture()
@@ -296,20 +305,25 @@ func firstLine(s string) string {
 func init() {
 	bfs.Register("c03/fresh", func() bfs.Scenario { return build(false) })
 	bfs.Register("c03/aged", func() bfs.Scenario { return build(true) })
+	bfs.Register("c03/wrap256", func() bfs.Scenario { return build(false, true) })
 	reg.Register(reg.Check{Property: "C03", Level: "model_checking", Run: func(run *ev.Run) {
-		depth, deadline := 5, 70*time.Second
+		depth, deadline := 5, 90*time.Second
 		if ev.Tier() == "thorough" {
 			depth, deadline = 8, 20*time.Minute
 		}
 		exh := true
-		for _, n := range []string{"fresh", "aged"} {
-			cfg := bfs.Config{Scenario: "c03/" + n, MaxDepth: depth, Deadline: deadline / 2}
+		for _, n := range []string{"fresh", "aged", "wrap256"} {
+			d := depth
+			if n == "wrap256" && d > 4 {
+				d = d - 1
+			}
+			cfg := bfs.Config{Scenario: "c03/" + n, MaxDepth: d, Deadline: deadline / 3}
 			st := bfs.Explore(cfg, run)
 			bfs.Report(run, n, cfg, st)
 			exh = exh && st.Exhaustive
 		}
 		run.Set("exhaustive", exh)
-		run.Set("bound", fmt.Sprintf("all histories up to depth %d over 21 ops (18 payment shapes x 2 providers incl. duplicates, re-signed CU, same epoch named by another block, future epoch; +1 block, next epoch, past memory), 2 fixtures", depth))
+		run.Set("bound", fmt.Sprintf("all histories up to depth %d over 21 ops (18 payment shapes x 2 providers incl. duplicates, re-signed CU, same epoch named by another block, future epoch; +1 block, next epoch, past memory), 3 fixtures (fresh, aged, and one whose epochs straddle block 256)", depth))
 		run.Assume("mock bank/account keeper of testutil/keeper; transactions are atomic as in baseapp (emulated by the driver)")
 	}})
 }
